@@ -187,11 +187,15 @@ def write_evidence(ctx, n_viol):
         "wall_s": round(ctx.elapsed(), 2),
         "violations": n_viol,
     }
-    os.makedirs(os.path.join(VERIF, "evidence"), exist_ok=True)
-    tmp = os.path.join(VERIF, "evidence", ctx.pid + ".json.tmp")
+    # runs against another tree (VERIF_REPO=<mutant>) must not overwrite the registered evidence
+    edir = os.environ.get("VERIF_EVIDENCE_DIR") or (
+        os.path.join(VERIF, "evidence") if os.path.realpath(REPO) == "/repo"
+        else os.path.join("/tmp", "verif_evidence_other"))
+    os.makedirs(edir, exist_ok=True)
+    tmp = os.path.join(edir, ctx.pid + ".json.tmp")
     with open(tmp, "w") as f:
         json.dump(ev, f, indent=1, sort_keys=True)
-    os.replace(tmp, os.path.join(VERIF, "evidence", ctx.pid + ".json"))
+    os.replace(tmp, os.path.join(edir, ctx.pid + ".json"))
 
 
 def finish(ctx):
